@@ -38,6 +38,8 @@ def gen_history(rng):
                 steps.append({'op': 'write', 'route': route, 'vals': vals, 'carrier': carrier})
         elif k < 0.66 and n > 0:
             steps.append({'op': 'empty_write', 'sel': rng.choice(['slice', 'mask', 'index_list'])})
+        elif k < 0.69:
+            steps.append({'op': 'rejected_write', 'src': rng.choice(['fxp_inexact', 'list_big'])})
         elif k < 0.8:
             steps.append({'op': 'reset'})
         else:
@@ -89,6 +91,18 @@ def run_history(h, res):
                 x[sel] = float(2.0 ** (nw - nf + 3)) + 0.3 * 2.0 ** -nf
                 st['_empty'] = (before, (lib.status3(x), lib.codes_of(x)), list(rec.log))
                 obs.append(None); msteps.append(None)
+            elif st['op'] == 'rejected_write':
+                # an indexed write that is REJECTED (more values than places; an inexact fixed-point source or an out-of-range list): nothing is
+                # stored, so no flag changes and no callback runs
+                before = (lib.status3(x), lib.codes_of(x)); m_ = max(h['n'], 1) + 2
+                bad_ = fx.Fxp([0.3] * m_, True, 8, 2) if st['src'] == 'fxp_inexact' else [float(2.0 ** (nw - nf + 3))] * m_
+                try:
+                    if h['n'] == 0: x[...] = bad_
+                    else: x[0:h['n']] = bad_
+                    rej_ = False
+                except (ValueError, IndexError): rej_ = True
+                st['_empty'] = (before, (lib.status3(x), lib.codes_of(x)), list(rec.log)) if rej_ else (before, before, [])
+                obs.append(None); msteps.append(None)
             elif st['op'] == 'write':
                 vals = st['vals']
                 if st['route'] == 'setitem':
@@ -137,6 +151,11 @@ def compare(h, req_obs, out, res):
     trace = rd.lst(lambda: (tuple(rd.b() for _ in range(4)), rd.lst(rd.z)))
     ti = 0
     for st, ob in zip(h['steps'], obs):
+        if st['op'] == 'rejected_write':
+            b_, a_, ev_ = st.pop('_empty')
+            if a_ != b_ or ev_:
+                res.fail(h, 'C04: a REJECTED indexed write (ValueError: more values than places) changed flags or codes, or invoked callbacks', expected=(b_, []), got=(a_, ev_)); return
+            continue
         if st['op'] == 'empty_write':
             b_, a_, ev_ = st.pop('_empty')
             if a_ != b_ or ev_:
@@ -301,6 +320,34 @@ def run_mixed_decimal(cases, res):
         if got[0] != [0, code] or got[1] != (False, False, True) or got[2] != ['change', 'inacc']:
             res.fail(c, 'C04: flags / callbacks of a write of a mixed list whose Decimal element is not representable (it rounds down to a code inside the range) are not "inaccuracy only"', expected=([0, code], (False, False, True), ['change', 'inacc']), got=got)
 
+def gen_empty2d(rng):
+    s, nw, nf = S.random_format(rng, max_word=16)
+    return {'empty2d': rng.choice(['col_slice', 'col_list', 'ellipsis_slice', 'row_slice', 'mask_false', 'both_empty']), 's': s, 'nw': nw, 'nf': nf, 'o': rng.choice(OMODES)}
+
+def run_empty2d(cases, res):
+    """writes through EMPTY selections of a 2-D object (an empty slice or index list on a trailing axis: shape (k, 0)): nothing is stored, so no
+    flag is raised and no callback runs, whatever the value"""
+    fx = lib.impl(); import numpy as np
+    for c in cases:
+        s, nw, nf = c['s'], c['nw'], c['nf']
+        rec = S.Recorder()
+        try:
+            x = fx.Fxp(np.zeros((2, 3)), s, nw, nf, overflow=c['o'], callbacks=[rec]); x.reset(); rec.log.clear()
+            big = float(2.0 ** (nw - nf + 3)) + 0.3 * 2.0 ** -nf
+            k = c['empty2d']
+            if k == 'col_slice': x[:, 1:1] = big
+            elif k == 'col_list': x[0:2, []] = big
+            elif k == 'ellipsis_slice': x[..., 3:3] = [[big], [big]]
+            elif k == 'row_slice': x[1:1, :] = big
+            elif k == 'mask_false': x[np.zeros((2, 3), dtype=bool)] = big
+            else: x[2:2, 0:0] = big
+            got = (lib.status3(x), lib.codes_of(x), list(rec.log))
+        except Exception as e:
+            res.fail(c, 'C04: a write through an empty selection of a 2-D object raised %s' % lib.exc_name(e), got=str(e)[:200]); continue
+        res.count('E:empty-selections-2-D', key=repr(c), nontrivial=True)
+        if got != ((False, False, False), [0] * 6, []):
+            res.fail(c, 'C04: a write through an EMPTY selection of a 2-D object (nothing is stored) raised flags, changed codes or invoked callbacks', expected=((False, False, False), [0] * 6, []), got=got)
+
 def run_resize_keep(cases, res):
     """x.resize(..., restore_val=False): the raw codes are KEPT and written into the new format like any raw write - flags and callbacks
     report what that write does to them (a code beyond the new range overflows / underflows; the stored code then differs: inexact)"""
@@ -338,6 +385,7 @@ def shard(shard, nshards, rng, tier, extra):
     run_complex_writes([gen_complex_write(rng) for _ in range((1800 if tier == 'quick' else 12000) // nshards)], res)
     run_wideint_writes([gen_wideint_write(rng) for _ in range((1800 if tier == 'quick' else 12000) // nshards)], res)
     run_resize_keep([gen_resize_keep(rng) for _ in range((900 if tier == 'quick' else 8000) // nshards)], res)
+    run_empty2d([gen_empty2d(rng) for _ in range((600 if tier == 'quick' else 5000) // nshards)], res)
     run_mixed_decimal([gen_mixed_decimal(rng) for _ in range((900 if tier == 'quick' else 8000) // nshards)], res)
     return res
 
@@ -367,5 +415,6 @@ def replay(payload):
     elif 'wide' in payload['case']: run_wideint_writes([payload['case']], res)
     elif 'keep_codes' in payload['case']: run_resize_keep([payload['case']], res)
     elif 'mixed_decimal' in payload['case']: run_mixed_decimal([payload['case']], res)
+    elif 'empty2d' in payload['case']: run_empty2d([payload['case']], res)
     else: run_batch([payload['case']], res)
     return {'holds': not res.failures, 'failures': res.failures}
